@@ -45,7 +45,7 @@ PROP = dict(
 
 THEOREMS = ["Wtf.C01." + t for t in (
     "params_match", "default_limits_pos", "universal", "limit_in_force", "source_params_sane", "idf_formula_nonneg",
-    "fuzzy_scores_unit_interval", "error_only_in_typo_matcher", "nonempty_of_match", "legacy_pipeline", "legacy_limit_in_force",
+    "fuzzy_scores_unit_interval", "error_only_in_typo_matcher", "nonempty_of_match", "factor_stage_preserves", "legacy_pipeline", "legacy_limit_in_force",
     "cli", "cli_limit_pos", "recovery_raw")]
 
 ASSERTIONS = ["bm25:defaultParams", "bm25:params-literal", "constants:typecheck"] + ["searchparams:" + s for s in (
@@ -62,7 +62,7 @@ def nontrivial(tags, ops, impl):
 def shipped(ctx, n):
     """The shipped database under real queries through every entry point (monitors only)."""
     path = os.path.join(core.REPO, "assets", "commands.yml")
-    p = subprocess.run([core.HARNESS_BIN, "tool", "c01-shipped", "-db", path, "-n", str(n), "-seed", str(ctx.seed)],
+    p = subprocess.run([core.HARNESS_BIN, "tool", "c01-shipped", "-db", path, "-n", str(n), "-seed", str(ctx.seed)],  # noqa
                        stdout=subprocess.PIPE, stderr=subprocess.PIPE, env=core.go_env(), timeout=3000)
     try:
         res = json.loads(p.stdout.decode(errors="replace").strip().split("\n")[-1])
@@ -82,7 +82,7 @@ def shipped(ctx, n):
         if h.get("prop") != "C01":
             continue
         ctx.hit(h.get("class", "?"), "%s: %s" % (h.get("class"), json.dumps(h.get("detail"))[:300]),
-                dict(kind="impl-counterexample", domain="c01-shipped", seed=ctx.seed, database=path, detail=h.get("detail"),
+                dict(kind="impl-counterexample", domain="c01-shipped", seed=ctx.seed, n=n, database=path, detail=h.get("detail"),
                      **{"class": h.get("class")}))
 
 
@@ -101,4 +101,43 @@ def run(ctx):
     if ok:
         os.environ["WTF_BIN"] = wtf
         ctx.correspond("legacy", 40 if quick else 1500, name="legacy-cli", args={"stream": "cli"}, nontrivial=nontrivial, shrink=False, seed_offset=9)
-    shipped(ctx, 40 if quick else 2500)
+    shipped(ctx, 40 if quick else 1500)
+
+
+def replay(ctx, rep):
+    """./check C01 --replay <file>: re-run the recorded input on the current tree (real code and model), print both."""
+    ctx.stage_build()
+    ok, out, wtf = core.build_wtf_binary()
+    if ok:
+        os.environ["WTF_BIN"] = wtf
+    items = []
+    if "failing" in rep:
+        items.append(rep["failing"])
+    for o in rep.get("broken_obligations", []):
+        if isinstance(o.get("detail"), dict) and "ops" in o["detail"]:
+            items.append(o["detail"])
+    if not items:
+        print(json.dumps(rep, indent=1))
+        return 0
+    rc = 0
+    for it in items:
+        if it.get("domain") == "c01-shipped":
+            p = subprocess.run([core.HARNESS_BIN, "tool", "c01-shipped", "-db", os.path.join(core.REPO, "assets", "commands.yml"),
+                                "-n", str(it.get("n", 40)), "-seed", str(it.get("seed", 1))], stdout=subprocess.PIPE, env=core.go_env())
+            res = json.loads(p.stdout.decode(errors="replace").strip().split("\n")[-1])
+            hits = [h for h in (res.get("hits") or []) if h.get("prop") == "C01"]
+            print("shipped-database stream: %d monitor hits" % len(hits))
+            for h in hits[:10]:
+                print("  ", json.dumps(h))
+            rc = rc or (1 if hits else 0)
+            continue
+        mm, il, ml, hits = core.run_single_case(ctx, "replay", it["domain"], it["ops"])
+        print("ops:")
+        for l in it["ops"]:
+            print("   ", core.pretty(l)[:300])
+        print("impl :", il)
+        print("model:", ml)
+        print("monitor hits:", json.dumps([h for h in hits if h.get("prop") == "C01"]))
+        if mm or any(h.get("prop") == "C01" for h in hits):
+            rc = 1
+    return rc
